@@ -50,7 +50,7 @@ class Server:
         self.log = open(os.path.join(root, "server-%d.log" % self.port), "w")
         self.p = subprocess.Popen([binary, "--data", os.path.join(root, "data"), "--path", os.path.join(root, "defs"),
                                    "--address", "127.0.0.1:%d" % self.port, "--config", os.path.join(root, "prunner.yml"),
-                                   "--poll-interval", "1h", "--disable-ansi"] + list(flags),
+                                   "--poll-interval", "1h", "--disable-ansi", "--verbose"] + list(flags),
                                   cwd=root, env=env, stdout=self.log, stderr=subprocess.STDOUT)
         deadline = time.time() + 20
         while time.time() < deadline:
@@ -105,6 +105,16 @@ class Server:
                 return json.loads(body)
             time.sleep(0.03)
         return None
+
+    def wait_log(self, text, count, d=10):
+        """wait until the server log contains `text` at least `count` times (event based, no fixed sleeps)"""
+        deadline = time.time() + d
+        while time.time() < deadline:
+            self.log.flush()
+            if open(self.log.name).read().count(text) >= count:
+                return True
+            time.sleep(0.03)
+        return False
 
     def wait_exit(self, d):
         try:
@@ -226,8 +236,12 @@ def run_scenarios(binary, work, tier):
         srv.wait_job(jr, lambda j: j.get("start") is not None, 10)
         t0 = time.time()
         srv.p.send_signal(signal.SIGINT)
-        time.sleep(0.15)
-        c503, _ = srv.schedule("slow", {"n": 3})
+        c503 = None
+        while time.time() - t0 < 2.0 and srv.p.poll() is None:
+            c503, _ = srv.schedule("slow", {"n": 3})
+            if c503 == 503:
+                break
+            time.sleep(0.02)
         last_r = srv.detail(jr)[1]
         last = {}
         while srv.p.poll() is None and time.time() - t0 < 15:
@@ -335,19 +349,20 @@ def run_scenarios(binary, work, tier):
 """
         write_defs(root2, defs_v1, sub="b")
         srv.p.send_signal(signal.SIGUSR1)
-        time.sleep(0.4)
+        srv.wait_log("Definitions changed", 1)
         c1, j1 = srv.schedule("rl")
         fact("C17", "reload", "edit-detected-on-sigusr1", c1 == 202, c1)
         c2, j2 = srv.schedule("rl")
         # same content again: must not count as a change; then an edit that only renames a key with an empty value
         write_defs(root2, defs_v1, sub="b")
         srv.p.send_signal(signal.SIGUSR1)
-        time.sleep(0.3)
+        if not srv.wait_log("no changes detected", 1):
+            raise Infra("the server did not react to SIGUSR1")
         log1 = open(srv.log.name).read()
         fact("C17", "reload", "unchanged-files-not-reloaded", log1.count("Definitions changed") == 1, log1.count("Definitions changed"))
         write_defs(root2, defs_v1.replace('KEYA: ""', 'KEYB: ""').replace("version-one", "version-two"), sub="b")
         srv.p.send_signal(signal.SIGUSR1)
-        time.sleep(0.4)
+        srv.wait_log("Definitions changed", 2)
         c3, j3 = srv.schedule("rl")
         outs = {}
         for jid in (j1, j2, j3):
@@ -358,7 +373,13 @@ def run_scenarios(binary, work, tier):
         fact("C16", "reload", "new-job-uses-new-script", "version-two" in outs.get(j3, ""), outs.get(j3))
         write_defs(root2, defs_v1.replace('KEYA: ""', 'KEYC: ""').replace("version-one", "version-two"), sub="b")
         srv.p.send_signal(signal.SIGUSR1)
-        time.sleep(0.4)
+        # either it is detected ("Definitions changed") or it is compared and ignored ("no changes detected")
+        deadline = time.time() + 10
+        while time.time() < deadline:
+            lg = open(srv.log.name).read()
+            if lg.count("Definitions changed") >= 3 or lg.count("no changes detected") >= 2:
+                break
+            time.sleep(0.03)
         log2 = open(srv.log.name).read()
         fact("C17", "reload", "empty-value-env-rename-detected", log2.count("Definitions changed") == 3, log2.count("Definitions changed"))
     finally:
